@@ -84,6 +84,7 @@ pub struct Sem<'u> {
     depth: usize,
     ret_stack: Vec<Ty>,
     ns_stack: Vec<Vec<String>>,
+    this_stack: Vec<Option<(Place, usize)>>,
 }
 
 fn get_path(v: &V, path: &[Step]) -> R<V> {
@@ -160,7 +161,7 @@ fn swizzle_indices(m: &str) -> Option<Vec<usize>> {
 
 impl<'u> Sem<'u> {
     pub fn new(u: &'u Unit, d: Dialect) -> Sem<'u> {
-        Sem { u, d, store: Vec::new(), scopes: Vec::new(), globals: HashMap::new(), fuel: 400_000, depth: 0, ret_stack: Vec::new(), ns_stack: Vec::new() }
+        Sem { u, d, store: Vec::new(), scopes: Vec::new(), globals: HashMap::new(), fuel: 400_000, depth: 0, ret_stack: Vec::new(), ns_stack: Vec::new(), this_stack: Vec::new() }
     }
 
     fn tick(&mut self) -> R<()> {
@@ -283,6 +284,18 @@ impl<'u> Sem<'u> {
         for s in self.scopes.iter().rev() {
             if let Some(p) = s.get(name) {
                 return Some(p.clone());
+            }
+        }
+        // members of the object of the running method
+        if let Some(Some((pl, si))) = self.this_stack.last() {
+            let sd = &self.u.structs[*si];
+            if let Some(fi) = sd.fields.iter().position(|f| f.1 == name) {
+                if let Ok(t) = self.ty(&sd.fields[fi].0) {
+                    let ft = self.with_dims(t, &sd.fields[fi].2);
+                    let mut path = pl.path.clone();
+                    path.push(Step::Field(fi));
+                    return Some(Place { slot: pl.slot, path, ty: ft, is_const: pl.is_const });
+                }
             }
         }
         self.globals.get(name).cloned()
@@ -771,7 +784,23 @@ impl<'u> Sem<'u> {
                 }
                 (self.fill(&to, &mut leaves.into_iter())?, to)
             }
-            Ex::MCall(..) => return unsupported("method call"),
+            Ex::MCall(obj, m, args) => {
+                let pl = match self.place(obj)? {
+                    Some(p) => p,
+                    None => {
+                        // a temporary object
+                        let (v, t) = self.eval(obj)?;
+                        let slot = self.new_slot(v);
+                        Place { slot, path: Vec::new(), ty: t, is_const: false }
+                    }
+                };
+                let Ty::Struct(si) = pl.ty.clone() else { return bad(format!("method call .{}() on {:?}", m, pl.ty)) };
+                let ms: Vec<&'u FuncD> = self.u.structs[si].methods.iter().filter(|f| &f.name == m && f.has_body).collect();
+                if ms.is_empty() {
+                    return bad(format!("struct {} has no method {}", self.u.structs[si].name, m));
+                }
+                self.invoke_user(&ms, m, args, Some((pl, si)))?
+            }
             Ex::Call(name, targs, args) => self.call(name, targs, args)?,
             Ex::Index(..) | Ex::Member(..) => {
                 if let Some(p) = self.place(e)? {
@@ -898,6 +927,15 @@ impl<'u> Sem<'u> {
         if !name.contains("::") && self.scopes.iter().any(|sc| sc.contains_key(name)) {
             return bad(format!("call of {}: a local variable of that name hides the function", name));
         }
+        // inside a method, an unqualified name is first looked up among the methods of the object
+        if !name.contains("::") {
+            if let Some(Some((pl, si))) = self.this_stack.last().cloned() {
+                let ms: Vec<&'u FuncD> = self.u.structs[si].methods.iter().filter(|f| f.name == name && f.has_body).collect();
+                if !ms.is_empty() {
+                    return self.invoke_user(&ms, name, args, Some((pl, si)));
+                }
+            }
+        }
         // unqualified lookup goes outward from the namespace of the calling function
         let mut cands: Vec<&'u FuncD> = Vec::new();
         let mut prefix: Vec<String> = self.ns_stack.last().cloned().unwrap_or_default();
@@ -959,10 +997,16 @@ impl<'u> Sem<'u> {
             }
             return bad(format!("call of an unknown function {}", name));
         }
+        self.invoke_user(&cands, name, args, None)
+    }
+
+    /// call one of `cands` (same name): selection by arity and trampoline tag, argument binding, frame, copy-back;
+    /// `this` is the object of a method call
+    fn invoke_user(&mut self, cands: &[&'u FuncD], name: &str, args: &[Ex], this: Option<(Place, usize)>) -> R<(V, Ty)> {
         // evaluate the arguments that are not lvalue-bound lazily: first pick the callee by arity
         let n = args.len();
         let mut viable: Vec<&'u FuncD> = Vec::new();
-        for f in &cands {
+        for f in cands {
             if n > f.params.len() {
                 continue;
             }
@@ -978,7 +1022,7 @@ impl<'u> Sem<'u> {
                 }
             }
             if tags_ok {
-                viable.push(f);
+                viable.push(*f);
             }
         }
         if viable.is_empty() {
@@ -1084,7 +1128,9 @@ impl<'u> Sem<'u> {
             self.depth += 1;
             self.ret_stack.push(ret_ty.clone());
             self.ns_stack.push(namespace_of(&f.name));
+            self.this_stack.push(this.clone());
             let r = self.block(&f.body);
+            self.this_stack.pop();
             self.ns_stack.pop();
             self.ret_stack.pop();
             self.depth -= 1;
@@ -1177,6 +1223,19 @@ impl<'u> Sem<'u> {
         }
         self.scopes = saved;
         Ok((r?, outs))
+    }
+
+    /// Run a method of struct `si` on an object; returns (return value, parameter cells, final object)
+    pub fn run_method(&mut self, si: usize, f: &'u FuncD, this: V, args: Vec<Arg>) -> R<(V, Vec<Option<V>>, V)> {
+        let ty = Ty::Struct(si);
+        let slot = self.new_slot(this);
+        let pl = Place { slot, path: Vec::new(), ty, is_const: false };
+        self.this_stack.push(Some((pl.clone(), si)));
+        let r = self.run(f, args);
+        self.this_stack.pop();
+        let (ret, outs) = r?;
+        let fin = self.read(&pl)?;
+        Ok((ret, outs, fin))
     }
 
     // ---- statements
